@@ -1,7 +1,6 @@
 package testonly
 
 import (
-	"fmt"
 	"go/token"
 
 	"golang.org/x/tools/go/analysis"
@@ -35,7 +34,8 @@ func (v TestOnlyViolation) GetPos() token.Pos {
 
 // GetMessage returns the main error message without formatting
 func (v TestOnlyViolation) GetMessage() string {
-	return fmt.Sprintf("[%s] %s", v.Code, v.Reason)
+	// (the code is shown by the reporter, like for the other checkers)
+	return v.Reason
 }
 
 // ReportViolations reports testonly violations using the new pretty formatter
